@@ -134,13 +134,25 @@ Next == (\E k \in 1..(Total - delivered) : Deliver(k)) \/ Consume \/ AskMore
 (* The three actions folded into one step, as a trace observes them: between two Read calls the server got the
    bytes up to d and did everything they allow.  MC_Stream checks that every `asked` state of the fine-grained
    model is exactly such a state (EagerAtAsk, EventsAreFunctionOfCount), which justifies the fold. *)
-DeliverEager(d) ==
+RECURSIVE SumGotAll(_, _)
+SumGotAll(ev, j) == IF j = 0 THEN 0 ELSE ev[j].got + SumGotAll(ev, j - 1)
+
+DeliverEagerEv(d, ev) ==      \* ev must be EventsOf(d): passed in so that a caller can share the evaluation
   /\ delivered <= d /\ d <= Total
   /\ delivered' = d
-  /\ consumed' = UnitsWithin(d)
-  /\ events' = EventsOf(d)
+  /\ consumed' = SumGotAll(ev, Len(ev))
+  /\ events' = ev
   /\ asked' = TRUE
   /\ UNCHANGED <<frames, dead>>
+
+DeliverEager(d) == DeliverEagerEv(d, EventsOf(d))
+
+(* The segment alone, the server's side elided: all a script generator needs of Deliver(k). *)
+SegmentIn(k, tot) ==        \* tot must be Total (a generator knows it without re-adding the frame lengths)
+  /\ k >= 1 /\ delivered + k <= tot
+  /\ delivered' = delivered + k
+  /\ UNCHANGED <<frames, consumed, events, asked, dead>>
+Segment(k) == SegmentIn(k, Total)
 
 (* ---- properties ----------------------------------------------------------- *)
 NeverEarly == consumed <= UnitsWithin(delivered)
